@@ -333,5 +333,6 @@ func (fe *FuncEnc) callStub(f *Frame, callee *ssa.Function, args []Term, argVals
 		engErr("%s: no stub for external function %s", fe.name, name)
 	}
 	fe.trusted["stub:"+name+" — "+s.note] = true
+	fe.effectE2(f, name, st, path, pos)
 	return s.fn(fe, f, args, argVals, st, path, pos)
 }
